@@ -91,11 +91,15 @@ func stats(in, outp string) {
 			}
 			if p.Spec.GetAction().String() == "CUSTOM" {
 				n, class := p.Spec.GetProvider().GetName(), "undefined"
-				for _, k := range s.providers {
-					if k == n {
-						class = "defined-grpc"
-					} else if k == "http:"+n {
-						class = "defined-http"
+				if _, http, ok := s.providerTarget(n); ok && http {
+					class = "defined-http"
+				} else if ok {
+					class = "defined-grpc"
+				} else {
+					for i := range s.providers {
+						if s.providers[i].name == n {
+							class = "defined-with-config-error"
+						}
 					}
 				}
 				cnt["provider."+class]++
@@ -120,6 +124,38 @@ func stats(in, outp string) {
 					}
 					specTCP = false
 				}
+			}
+		}
+		// CUSTOM providers named by the applying CUSTOM policies of the case: how many distinct ones, all usable or mixed
+		{
+			names := map[string]bool{}
+			for i := range s.policies {
+				p := &s.policies[i]
+				if s.applies(p) && p.Spec.GetAction().String() == "CUSTOM" {
+					names[p.Spec.GetProvider().GetName()] = true
+				}
+			}
+			if len(names) > 0 {
+				n, usable := len(names), 0
+				for k := range names {
+					if _, _, ok := s.providerTarget(k); ok {
+						usable++
+					}
+				}
+				if n > 3 {
+					n = 3
+				}
+				class := "mixed"
+				if usable == len(names) {
+					class = "all-defined"
+				} else if usable == 0 {
+					class = "none-defined"
+				}
+				multi := "multi-off"
+				if s.multi {
+					multi = "multi-on"
+				}
+				cnt[fmt.Sprintf("custom.providers-per-case.%d.%s.%s", n, class, multi)]++
 			}
 		}
 		if len(s.providers) > 0 && s.multi {
